@@ -164,6 +164,10 @@ class GridSelection(Scenario):
     pid = "C13"
     builtins_for = (UTILS, "geoh5py.objects.grid2d")
 
+    @property
+    def float_sensitive(self):
+        return bool(self.params.get("rot"))
+
     def body(self, cx):
         nu, nv, d, inverse = (self.params[x] for x in ("nu", "nv", "d", "inverse"))
         rot = self.params.get("rot")          # None | (cos, sin) rational pair as strings "3/5","4/5"
